@@ -44,9 +44,9 @@ static const OpInfo OPS[O_NOPS] = {
 };
 
 enum { K_ARRAY, K_LIST, K_TUPLE, K_TABLE, K_TREE, K_STRING, K_NKINDS };
-enum { ET_INT, ET_FLT, ET_STR, ET_TOK, ET_CKEY, ET_NTYPES };
+enum { ET_INT, ET_FLT, ET_STR, ET_TOK, ET_CKEY, ET_P12, ET_NTYPES };
 static const char* KNAME[] = { "Array", "List", "Tuple", "Table", "Tree", "String" };
-static const char* ENAME[] = { "Int", "Float", "String", "Tok", "CKey" };
+static const char* ENAME[] = { "Int", "Float", "String", "Tok", "CKey", "P12" };
 
 #define MAXC 4
 #define MAXN 400          /* model capacity per container */
@@ -74,6 +74,11 @@ static char  g_strpool[NSTR][24];
 static int   g_strpool_ready;
 #define ADVM (5LL*11*23*53*101)
 
+/* plain struct element type whose size (12) is not a multiple of the word size; no class instances at all */
+struct E12 { int32_t a, b, c; };
+static var E12 = Cello(E12);
+static struct E12 e12val(int64_t v) { struct E12 x = { (int32_t)v, (int32_t)(v ^ 0x5555), (int32_t)(~v) }; return x; }
+
 static double fltval(int64_t v) { return v == 7777 ? -0.0 : (double)v * 0.25; }
 static int64_t normv(int et, int64_t v) {
   if (et == ET_STR) { int64_t m = v % NSTR; return m < 0 ? m + NSTR : m; }
@@ -83,14 +88,16 @@ static int64_t normv(int et, int64_t v) {
 static const char* strval(int64_t v) { return g_strpool[normv(ET_STR, v)]; }
 static var ETYPE(int et) {
   switch (et) { case ET_INT: return Int; case ET_FLT: return Float; case ET_STR: return String;
-                case ET_TOK: return Tok; default: return CKey; }
+                case ET_TOK: return Tok; case ET_P12: return E12; default: return CKey; }
 }
 #define MKVAL(et, v) ((et)==ET_INT ? (var)$I(v) : (et)==ET_FLT ? (var)$F(fltval(v)) : \
-  (et)==ET_STR ? (var)$S((char*)strval(v)) : (et)==ET_TOK ? (var)TOK_T(v) : (var)$(CKey, (v)))
+  (et)==ET_STR ? (var)$S((char*)strval(v)) : (et)==ET_TOK ? (var)TOK_T(v) : \
+  (et)==ET_P12 ? (var)$(E12, (int32_t)(v), (int32_t)((v) ^ 0x5555), (int32_t)(~(v))) : (var)$(CKey, (v)))
 
 static int vcmp(int et, int64_t a, int64_t b) {
   if (et == ET_FLT) { double x = fltval(a), y = fltval(b); return x < y ? -1 : x > y ? 1 : 0; }
   if (et == ET_STR) { int c = strcmp(strval(a), strval(b)); return c < 0 ? -1 : c > 0 ? 1 : 0; }
+  if (et == ET_P12) { struct E12 x = e12val(a), y = e12val(b); int c = memcmp(&x, &y, sizeof x); return c < 0 ? -1 : c > 0 ? 1 : 0; }   /* plain structs compare byte-wise */
   return a < b ? -1 : a > b ? 1 : 0;
 }
 static int veq(int et, int64_t a, int64_t b) { return vcmp(et, a, b) == 0; }
@@ -139,12 +146,14 @@ static int64_t treekey_int(int64_t idx) {
 static int64_t keyval(int kind, int kt, int64_t idx) {
   if (kt == ET_STR) return normv(ET_STR, idx);
   if (kt == ET_CKEY) { int64_t m = idx % 200; return m < 0 ? m + 200 : m; }
+  if (kt == ET_P12) { int64_t m = idx % 120; return (m < 0 ? m + 120 : m) - 30; }
   if (kt == ET_FLT) return normv(ET_FLT, idx);
   return kind == K_TABLE ? tblkey_int(idx) : treekey_int(idx);
 }
 static int64_t seqval(int et, int64_t x) {
   if (et == ET_INT) { int64_t m = ((x % 200) + 200) % 200; return m < NBND ? BND[m] : (m % 17) - 5; }
   if (et == ET_TOK || et == ET_CKEY) return ((x % 40) + 40) % 40;
+  if (et == ET_P12) return ((x % 60) + 60) % 60 - 10;
   if (et == ET_FLT) { int64_t m = ((x % 50) + 50) % 50; return m == 0 ? 0 : m == 1 ? 7777 : normv(et, x); }
   return normv(et, x);
 }
@@ -184,6 +193,7 @@ static int elem_matches(int et, var p, int64_t v) {
     case ET_FLT: { double d = c_float(p), w = fltval(v); return d == w; }
     case ET_STR: return strcmp(c_str(p), strval(v)) == 0;
     case ET_TOK: { struct Tok* t = p; return t->val == v; }
+    case ET_P12: { struct E12 w = e12val(v); return memcmp(p, &w, sizeof w) == 0; }
     default:     return ((struct CKey*)p)->val == v;
   }
 }
@@ -238,6 +248,7 @@ static void check_seq(Cont* c) {
       if (!elem_matches(et, p, c->k[i])) VIOL(c, "elem-mismatch", "position %d differs from model after %s", i, g_lastop);
       if (g_transcript) {
         if (et == ET_FLT) TR("e %d %.17g", i, c_float(p));
+        else if (et == ET_P12) TR("e %d p%d", i, (int)((struct E12*)p)->a);
         else if (et == ET_STR) TR("e %d %s", i, c_str(p));
         else TR("e %d %lld", i, (long long)c_int(p));
       }
@@ -265,6 +276,7 @@ static int map_find(Cont* c, int64_t kv) {
 static int g_npoolkeys(const Cont* c) {
   if (c->kt == ET_STR) return NSTR;
   if (c->kt == ET_CKEY) return 200;
+  if (c->kt == ET_P12) return 120;
   return c->kind == K_TABLE ? NKEY : 96;
 }
 
@@ -311,7 +323,7 @@ static void check_map(Cont* c, int full) {
       }
       prev = c->k[hit]; have_prev = 1;
       if (g_transcript) {
-        if (c->kt == ET_STR) TR("k %s", c_str(key)); else TR("k %lld", (long long)c_int(key));
+        if (c->kt == ET_STR) TR("k %s", c_str(key)); else if (c->kt == ET_P12) TR("k p%d", (int)((struct E12*)key)->a); else TR("k %lld", (long long)c_int(key));
       }
     }
     var val = get(o, key);
@@ -632,6 +644,7 @@ static int seq_readback(Cont* c, int64_t* out, int cap) {
     } else switch (c->kt) {
       case ET_FLT: { double d = c_float(p); int64_t q = (int64_t)(d * 4.0); out[n++] = (d == 0.0 && signbit(d)) ? 7777 : q; break; }
       case ET_STR: { int64_t f = -1; for (int j = 0; j < NSTR; j++) if (!strcmp(g_strpool[j], c_str(p))) { f = j; break; } out[n++] = f; break; }
+      case ET_P12: out[n++] = ((struct E12*)p)->a; break;
       default: out[n++] = c_int(p);
     }
   }
@@ -687,6 +700,7 @@ static void do_new(const Op* o) {
   g_lastop = "new";
   stat_add(kind == K_TABLE ? "new.table" : kind == K_TREE ? "new.tree" : kind == K_STRING ? "new.string" : "new.seq", 1);
   if (c->managed) stat_add("new.managed", 1);
+  if (kt == ET_P12 || (!is_seq(kind) && vt == ET_P12)) stat_add("new.plain_struct_elems", 1);
   check_cont(c, 1);
 }
 
@@ -921,7 +935,7 @@ static void do_resize(const Op* o) {
     resize(c->obj, n); c->n = (int)n;
   } else {
     size_t n;
-    int pad_ok = (c->kt == ET_INT || c->kt == ET_FLT || c->kt == ET_CKEY);
+    int pad_ok = (c->kt == ET_INT || c->kt == ET_FLT || c->kt == ET_CKEY);   /* zero padding of a P12 list is not value 0 in model space */
     if (r % 4 == 0) n = 0;
     else if (r % 4 == 1 || (c->kind == K_LIST && !pad_ok)) n = c->n ? (r / 4) % ((size_t)c->n + 1) : 0;
     else n = (size_t)c->n + 1 + (r / 4) % 24;
@@ -1582,16 +1596,16 @@ static void gen_new(Plan* p, Rng* r, int focus) {
   }
   int tokish = (focus == 5) ? 3 : (focus == 0 || focus == 10 || focus == 12 || focus == 19) ? 1 : (focus == 18 ? 0 : 1);
   if (kind == K_TABLE) {
-    static const int kts[] = { ET_INT, ET_STR, ET_TOK, ET_INT }; static const int vts[] = { ET_INT, ET_STR, ET_TOK, ET_TOK };
-    int i = (int)rng_below(r, 4); kt = kts[i]; vt = vts[rng_below(r, 4)];
+    static const int kts[] = { ET_INT, ET_STR, ET_TOK, ET_INT, ET_P12 }; static const int vts[] = { ET_INT, ET_STR, ET_TOK, ET_TOK, ET_P12 };
+    int i = (int)rng_below(r, 5); kt = kts[i]; vt = vts[rng_below(r, 5)];
     if (rng_below(r, 4) < (uint32_t)tokish) { kt = rng_chance(r, 1, 2) ? ET_TOK : kt; vt = ET_TOK; }
   } else if (kind == K_TREE) {
-    static const int kts[] = { ET_INT, ET_STR, ET_CKEY, ET_INT }; static const int vts[] = { ET_INT, ET_STR, ET_TOK, ET_INT };
-    kt = kts[rng_below(r, 4)]; vt = vts[rng_below(r, 4)];
+    static const int kts[] = { ET_INT, ET_STR, ET_CKEY, ET_INT, ET_P12 }; static const int vts[] = { ET_INT, ET_STR, ET_TOK, ET_INT, ET_P12 };
+    kt = kts[rng_below(r, 5)]; vt = vts[rng_below(r, 5)];
     if (rng_below(r, 4) < (uint32_t)tokish) vt = ET_TOK;
   } else if (kind == K_ARRAY || kind == K_LIST) {
-    static const int ets[] = { ET_INT, ET_FLT, ET_STR, ET_TOK, ET_INT, ET_CKEY };
-    kt = ets[rng_below(r, 6)];
+    static const int ets[] = { ET_INT, ET_FLT, ET_STR, ET_TOK, ET_INT, ET_CKEY, ET_P12 };
+    kt = ets[rng_below(r, 7)];
     if (rng_below(r, 4) < (uint32_t)tokish) kt = ET_TOK;
   }
   if (focus == 18 && (kt == ET_TOK || vt == ET_TOK)) { if (kt == ET_TOK) kt = ET_INT; if (vt == ET_TOK) vt = ET_INT; }
